@@ -41,7 +41,9 @@ fn read_u64_le(bytes: &[u8]) -> (r: u64)
 // ================= reference specification: MurmurHash3_x64_128 (Appleby, MurmurHash3.cpp) =================
 const C1 : u64 = 0x87c37b91114253d5 ;
 
+
 const C2 : u64 = 0x4cf5ad432745937f ;
+
 
 
 spec fn wmul(a: u64, b: u64) -> u64 { a.wrapping_mul(b) }
@@ -215,6 +217,7 @@ h1 : u64 , h2 : u64 , total : u64 , buf : [ u8 ;
 16 ] , buf_len : usize , }
 
 
+
 impl MurmurHash3X64128 {
     spec fn wf(&self) -> bool { self.buf_len < 16 && self.total % 16 == 0 }
     // number of bytes hashed so far
@@ -239,6 +242,7 @@ MurmurHash3X64128 {
 h1 : seed , h2 : seed , total : 0 , buf : [ 0 ;
 16 ] , buf_len : 0 , }
 }
+
 
 
     fn finish128 ( & self ) -> ( r : ( u64 , u64 ) ) requires self . buf_len < 16 , self . len ( ) <= u64 :: MAX , ensures
@@ -303,6 +307,7 @@ lemma_digest ( * self , seed , d ) ;
 ( h1 , h2 ) }
 
 
+
     fn update ( & mut self , mut k1 : u64 , mut k2 : u64 ) requires old ( self ) . total <= u64 :: MAX - 16 ensures
 /*@C16.m_block*/ ( final ( self ) . h1 , final ( self ) . h2 ) == block_step ( ( old ( self ) . h1 , old ( self ) . h2 ) , k1 , k2 ) , final ( self ) . total == old ( self ) . total + 16 , final ( self ) . buf == old ( self ) . buf , final ( self ) . buf_len == old ( self ) . buf_len , {
 hide ( vstd :: wrapping :: u64_specs :: wrapping_mul ) ;
@@ -328,9 +333,11 @@ self . total += 16 ;
 }
 
 
+
     fn finish ( & self ) -> ( r : u64 ) requires self . buf_len < 16 , self . len ( ) <= u64 :: MAX , ensures
 /*@C16.m_digest64*/ forall | seed : u64 , d : Seq < u8 > | # [ trigger ] self . represents ( seed , d ) ==> r == murmur3_x64_128 ( seed , d ) . 0 , {
 self . finish128 ( ) . 0 }
+
 
 
     fn write ( & mut self , mut bytes : & [ u8 ] ) requires old ( self ) . wf ( ) , old ( self ) . len ( ) + bytes . len ( ) + 16 <= u64 :: MAX , ensures
@@ -392,7 +399,8 @@ lemma_block_iter ( ( pre . h1 , pre . h2 ) , st , bytes @ , done , base , i as i
 proof {
 assert ( self . total - pre . total == 16 * ( base + blocks ) ) ;
 assert ( ( ( self . total - pre . total ) / 16 ) as nat == base + blocks as nat ) ;
-let l = bytes . len ( ) ; assert ( l & 15 == l % 16 ) by ( bit_vector ) ;
+let l = bytes . len ( ) ;
+assert ( l & 15 == l % 16 ) by ( bit_vector ) ;
 }
 let len = bytes . len ( ) % 16 ;
 if len > 0 {
@@ -410,6 +418,7 @@ lemma_represents_after ( pre , * self , all , seed , d ) ;
 }
 }
 
+
 }
 
 fn fmix64 ( mut k : u64 ) -> ( r : u64 ) ensures
@@ -424,6 +433,7 @@ k = k . wrapping_mul ( 0xff51afd7ed558ccd ) ;
 k ^= k >> 33 ;
 k = k . wrapping_mul ( 0xc4ceb9fe1a85ec53 ) ;
 k ^ ( k >> 33 ) }
+
 
 
 // ================= hash/mod.rs =================
@@ -446,6 +456,27 @@ assert ( h1 & 0xffff == h1 % 0x10000 && h1 & 0xffff == 0xffff & h1 ) by ( bit_ve
 let seed_hash = ( h1 & 0xffff ) as u16 ;
 vx_documented_panic ( seed_hash != 0 ) ;
 seed_hash }
+
+
+
+
+// Count-Min per-row hash seeds (countmin/sketch.rs): row r hashes with h1 of murmur3(seed, le64(r)) - the documented derivation
+#[verifier::external_body] fn vx_u64_from_u8(i: u8) -> (r: u64) ensures r == i as u64 { u64::from(i) }
+spec fn cm_row_seed(seed: u64, r: int) -> u64 { murmur3_x64_128(seed, le_bytes8(r as u64)).0 }
+spec fn cm_seeds_spec(seed: u64, n: u8) -> Seq<u64> { Seq::new(n as nat, |r: int| cm_row_seed(seed, r)) }
+fn make_hash_seeds ( seed : u64 , num_hashes : u8 ) -> ( r : Vec < u64 > ) ensures
+/*@C08.row_seeds,C16.cm_row_seeds*/ r @ =~= cm_seeds_spec ( seed , num_hashes ) , r @ . len ( ) == num_hashes , {
+let mut seeds = Vec :: with_capacity ( num_hashes as usize ) ;
+for i in 0 .. num_hashes invariant seeds @ . len ( ) == i , forall | j : int | 0 <= j < i ==> seeds @ [ j ] == cm_row_seed ( seed , j ) , {
+let mut hasher = MurmurHash3X64128 :: with_seed ( seed ) ;
+hasher . write ( & vx_u64_to_le_bytes ( vx_u64_from_u8 ( i ) ) ) ;
+proof {
+assert ( Seq :: < u8 > :: empty ( ) + le_bytes8 ( i as u64 ) =~= le_bytes8 ( i as u64 ) ) ;
+}
+let ( h1 , _ ) = hasher . finish128 ( ) ;
+seeds . push ( h1 ) ;
+}
+seeds }
 
 
 }
